@@ -33,7 +33,12 @@ RGsSingle1 == RGs(RowsX(1), {NoPart, 0, 1})
 (* spec -> code: the (op, constant, min, max) tuples the pruner is asked about, with the transcription's answer *)
 StatPairs == {<<a, b>> \in (Vals \cup {NoVal}) \X (Vals \cup {NoVal}) : a = NoVal \/ b = NoVal \/ a <= b}
 FVArgs == {<<op, {c}>> : op \in ScalarOps, c \in Consts} \cup {<<op, S>> : op \in SetOps, S \in Sets2(Consts)}
+(* CONTRACT for the decision function itself: excluding a chunk whose values lie in [vmin, vmax] (an absent bound *)
+(* = unknown) is sound only if no value of that range qualifies                                               *)
+SoundPrune(op, c, vmin, vmax) ==
+  ~\E v \in (IF vmin = NoVal THEN 0 ELSE vmin)..(IF vmax = NoVal THEN MaxV ELSE vmax) : Cmp(op, v, c)
 FilterValCases ==
-  {[op |-> a[1], c |-> a[2], vmin |-> mm[1], vmax |-> mm[2], out |-> FilterVal(a[1], a[2], mm[1], mm[2])] :
+  {[op |-> a[1], c |-> a[2], vmin |-> mm[1], vmax |-> mm[2], out |-> FilterVal(a[1], a[2], mm[1], mm[2]),
+    outb |-> FilterValV(a[1], a[2], mm[1], mm[2], TRUE), sound |-> SoundPrune(a[1], a[2], mm[1], mm[2])] :
      a \in FVArgs, mm \in StatPairs}
 =============================================================================
